@@ -786,4 +786,5 @@ def run(chk):
     shapes.non_members_rejected(chk, P, "C11.R10:non-members-rejected")
     shapes.std_listing_files_only(chk, P, "C11.R3:std-listing-files-only")
     shapes.member_component_count(chk, P, "C11.R10:member-component-count")
+    shapes.retention_not_ended_by_failure(chk, P, "C11.R3:retention-not-ended-by-failure")
     return chk
